@@ -357,8 +357,10 @@ class ValidateStream:
             elif t[0] == "publish":
                 proto, topic, qos, tag, n = int(t[1]), unhx(t[2]), int(t[3]), t[4], int(t[5])
                 plen = n if tag in ("str", "bytes", "bytearray") else (n if tag == "int" else (3 if tag == "float" else 0))
+                # the whole packet must be expressible: remaining length = 2+topic+payload(+2 for a packet id)(+1 v5)
+                remlen = 2 + len(topic) + plen + (2 if qos > 0 else 0) + (1 if proto == 5 else 0)
                 verr = (b"+" in topic or b"#" in topic or (len(topic) == 0 and proto != 5) or len(topic) > 65535
-                        or not 0 <= qos <= 2 or (tag != "other" and plen > 268435455))
+                        or not 0 <= qos <= 2 or (tag != "other" and (plen > 268435455 or remlen > 268435455)))
                 terr = tag == "other"
                 if verr and terr:
                     ok = o in ("ValueError", "TypeError")
